@@ -56,16 +56,21 @@ structure RCode where
   version : Int
 deriving Repr, Inhabited
 
+/-- `c = code.BuiltinCode(); if c == 0: c = code.DeprecatedBuiltinCode()` -/
+def effectiveBuiltin (c : OpCodeT) : Int := if c.builtin == 0 then c.deprecated else c.builtin
+
+/-- `builtin_operator_map[c]`; an unknown code is an InputFileError -/
+def readerRow (b : Int) : Except String (Nat × String × Bool × WriterTbl.Tri) :=
+  match WriterTbl.readerOps.find? (fun r => (r.1 : Int) == b) with
+  | some r => pure r
+  | none => throw "vela-error"
+
 def parseOpCode (c : OpCodeT) : Except String RCode := do
-  let b := if c.builtin == 0 then c.deprecated else c.builtin
-  let row ← match WriterTbl.readerOps.find? (fun r => (r.1 : Int) == b) with
-    | some r => pure r
-    | none => throw "vela-error"
-  let info ← match lookupOp row.2.1 with
-    | some i => pure i
-    | none => throw "key"
-  let custom := if b == (WriterTbl.builtinCustom : Int) then some (c.custom.getD []) else none
-  pure { op := info, hasSer := row.2.2.1, custom := custom, indices := .ofTri row.2.2.2, version := c.version }
+  let row ← readerRow (effectiveBuiltin c)
+  let info ← Writer.lookupOpE row.2.1
+  pure { op := info, hasSer := row.2.2.1,
+         custom := if effectiveBuiltin c == (WriterTbl.builtinCustom : Int) then some (c.custom.getD []) else none,
+         indices := .ofTri row.2.2.2, version := c.version }
 
 /-! ## tensors -/
 
